@@ -433,6 +433,16 @@ func c09run(c M) M {
 	return o
 }
 
+var c09StmtZone = func() *time.Location { l, _ := time.LoadLocation("America/Chicago"); return l }()
+
+// c09Poison answers every name with a value no case uses, and every call with a fixed instant
+type c09Poison struct{}
+
+func (c09Poison) Value(string) (interface{}, bool) { return int64(424242), true }
+func (c09Poison) Call(name string, args []interface{}) (interface{}, bool) {
+	return time.Unix(42, 0).UTC(), true
+}
+
 // c09observe runs Reduce / Eval on a freshly built expression and records every result.
 func c09observe(o M, mk func() (influxql.Expr, error), valuer influxql.Valuer, env *c09env, eval bool, full bool) {
 	e0, err := mk()
@@ -485,6 +495,37 @@ func c09observe(o M, mk func() (influxql.Expr, error), valuer influxql.Valuer, e
 		// the trees handed to Reduce are inputs: they must come out as they went in
 		o["red_after"] = c09proj(red)
 		o["in_after"] = c09proj(e1)
+		// the same reduction through other entry points: (a) the statement-level Reduce of a SELECT that holds the
+		// expression as its condition (and has a zone of its own), (b) a valuer DERIVED from a shared base - the base is
+		// extended once with the case's valuer and then once more with a valuer that answers every name differently
+		if e2, err := mk(); err == nil {
+			var sred influxql.Expr
+			if p := guard(func() {
+				st := &influxql.SelectStatement{
+					Fields:    influxql.Fields{{Expr: &influxql.VarRef{Val: "v"}}},
+					Sources:   influxql.Sources{&influxql.Measurement{Name: "m"}},
+					Condition: e2, Location: c09StmtZone, IsRawQuery: true,
+				}
+				sred = st.Reduce(valuer).Condition
+			}); p != "" {
+				o["panic"] = M{"at": "statement-reduce", "msg": p}
+				return
+			}
+			o["stmt_red"] = c09proj(sred)
+		}
+		if e3, err := mk(); err == nil {
+			var mred influxql.Expr
+			if p := guard(func() {
+				base := influxql.MultiValuer(influxql.MultiValuer(influxql.MapValuer{}, influxql.MapValuer{}), influxql.MapValuer{})
+				d1 := influxql.MultiValuer(base, valuer)
+				_ = influxql.MultiValuer(base, c09Poison{})
+				mred = influxql.Reduce(e3, d1)
+			}); p != "" {
+				o["panic"] = M{"at": "derived-valuer", "msg": p}
+				return
+			}
+			o["multi_red"] = c09proj(mred)
+		}
 	}
 	if eval {
 		var v1 interface{}
